@@ -600,6 +600,12 @@ impl VariableType {
                 min, max
             ));
         }
+        if min == f64::INFINITY || max == f64::NEG_INFINITY {
+            return Err(format!(
+                "A range from {} to {} contains no value",
+                min, max
+            ));
+        }
         Ok(())
     }
     pub fn non_negative_real() -> VariableType {
